@@ -1,7 +1,7 @@
 """C09 Accepted paths belong to their ensemble; rejections change nothing."""
 from __future__ import annotations
 
-LEVEL = "proof"
+LEVEL = "other"  # every clause is a discharged obligation EXCEPT the listed known findings, so this is not claimed as a complete proof
 TRUSTED_BASE = [
     "A-PYSEM: E1's encoding of the Python subset, guarded by canaries + native differential runs",
     "A-REAL: floats as reals (comparisons of order parameters; the length bound int((L-2)/u)+2 over exact reals)",
